@@ -188,6 +188,24 @@ Proof.
 Qed.
 
 
+(* rayon: however the two producers are cut into pieces, the pieces put together are what the
+   sequential iterator yields; par_iter* is iter* up to the order of the visits *)
+Lemma concat_chop {A} : forall sp (l : list A), concat (chop sp l) = l.
+Proof.
+  induction sp as [|n sp IH]; intros l; cbn [chop concat]; [apply app_nil_r|].
+  rewrite IH. apply firstn_skipn.
+Qed.
+
+Lemma map_par_iter_eq delta splits s : map_par_iter delta splits s = map_iter delta s.
+Proof.
+  unfold map_par_iter, map_iter, bind. destruct (rt_iter s) as [l s1|p s1|f]; [|reflexivity|reflexivity].
+  rewrite concat_chop. reflexivity.
+Qed.
+
+(* every element lies in exactly one piece: no element is handed to two workers *)
+Lemma chop_partition {A} sp (l : list A) : concat (chop sp l) ≡ₚ l.
+Proof. rewrite concat_chop. reflexivity. Qed.
+
 (* ------------------------------------------------------------------ retain *)
 
 Definition retain_act (keep : list N) (delta : N) (e : elem) : option elem :=
